@@ -2,7 +2,7 @@
     Theorems only: statement, [exact], [Print Assumptions] (statements restated verbatim from the
     Inv_*.v files where they are proved).  See DESIGN.md section 5 for how each renders the property. *)
 From CB Require Import ProofLib Spec MonitorSound Results.
-From CB Require Import Inv_share.
+From CB Require Import Inv_share Passive Fanout_share.
 
 Theorem C12_share_one_upstream p :
   resub p = true -> no_nest p = false -> c14 p = false -> late_ok p = false ->
@@ -29,3 +29,65 @@ Theorem C12_share_safe p :
   forall c : cfg share_op, reach p g_share c -> viols (ms c) = [] /\ dead c = false.
 Proof. exact (@share_safe p). Qed.
 Print Assumptions C12_share_safe.
+
+(** ** every attached sink receives every datum and the termination emitted while it is attached.
+    Stated for the passive continuation (Passive.v): after the upstream's message every pending
+    delivery is answered by a plain return.  [sh_sinks] is the attached list in attach order. *)
+
+Theorem C12_share_attached p :
+  resub p = true -> no_nest p = false -> c14 p = false -> late_ok p = false ->
+  forall c : cfg share_op, reach p g_share c -> stack c = [] ->
+    (forall s, In s (sh_sinks (cst c)) <-> sk (ms c) s = SLive) /\
+    NoDup (sh_sinks (cst c)).
+Proof. exact (@share_attached p). Qed.
+Print Assumptions C12_share_attached.
+
+Theorem C12_share_fanout_data p :
+  resub p = true -> no_nest p = false -> c14 p = false -> late_ok p = false ->
+  forall (c : cfg share_op) v, reach p g_share c -> stack c = [] ->
+    enabled p g_share c (MIn (IDn 0 (DD v))) = true ->
+    exists fuel,
+      let c' := drain p fuel (step p c (MIn (IDn 0 (DD v)))) in
+      stack c' = [] /\
+      exists evs, trace c' = trace c ++ evs /\
+        calls_of evs = map (fun s => CDn s (DD v)) (sh_sinks (cst c)) /\
+        sh_sinks (cst c') = sh_sinks (cst c) /\ reach p g_share c'.
+Proof. exact (@share_fanout_data p). Qed.
+Print Assumptions C12_share_fanout_data.
+
+(** a terminal message reaches every attached sink once, the list is cleared, and the next
+    subscriber starts a fresh upstream subscription *)
+Theorem C12_share_fanout_term p :
+  resub p = true -> no_nest p = false -> c14 p = false -> late_ok p = false ->
+  forall (c : cfg share_op) d, reach p g_share c -> stack c = [] ->
+    dmsg_is_term d = true ->
+    enabled p g_share c (MIn (IDn 0 d)) = true ->
+    exists fuel,
+      let c' := drain p fuel (step p c (MIn (IDn 0 d))) in
+      stack c' = [] /\
+      exists evs, trace c' = trace c ++ evs /\
+        calls_of evs = map (fun s => CDn s d) (sh_sinks (cst c)) /\
+        sh_sinks (cst c') = [] /\ reach p g_share c' /\
+        (forall k aux,
+           handle share_op (ISub k aux) (cst c') =
+           ({| sh_sinks := [k]; sh_tb := sh_tb (cst c'); sh_first := k |}, [],
+            ACall (CSub 0) ShDone)) /\
+        (forall k, enabled p g_share c' (MIn (ISub k 0)) = true ->
+           trace (step p c' (MIn (ISub k 0))) = trace c' ++ [EIn (ISub k 0); ECall (CSub 0)]).
+Proof. exact (@share_fanout_term p). Qed.
+Print Assumptions C12_share_fanout_term.
+
+(** exactly the sinks that are live receive the message, each once *)
+Theorem C12_share_fanout_once p :
+  resub p = true -> no_nest p = false -> c14 p = false -> late_ok p = false ->
+  forall (c : cfg share_op) d, reach p g_share c -> stack c = [] -> d <> DH ->
+    enabled p g_share c (MIn (IDn 0 d)) = true ->
+    exists fuel,
+      let c' := drain p fuel (step p c (MIn (IDn 0 d))) in
+      stack c' = [] /\ reach p g_share c' /\
+      exists evs, trace c' = trace c ++ evs /\
+        NoDup (calls_of evs) /\
+        (forall cl, In cl (calls_of evs) -> exists s, cl = CDn s d) /\
+        (forall s, In (CDn s d) (calls_of evs) <-> sk (ms c) s = SLive).
+Proof. exact (@share_fanout_once p). Qed.
+Print Assumptions C12_share_fanout_once.
